@@ -30,6 +30,9 @@ def expK (w : List Nat) : String := s!"{toHex (KSpec.val4 w)}:{showNats w}"
 
 def handle (args : List String) (impl : String) : R Ans :=
   match args with
+  -- the bulk constructors `kmers_from_bytes` / `kmers_from_ascii` (named by C13) are requests of the k-mer driver
+  | [_, "kmersb", _] => Drv.C10.handle args impl
+  | [_, "kmersa", _] => Drv.C10.handle args impl
   | ktype :: req :: cont :: seq :: rest => do
     let some c := Cfg.ofName ktype | throw "bad-type"
     let seq ← natDigits seq
